@@ -387,6 +387,8 @@ def check(run, project):
                                "input leaves behind is seen by the next", module=m_, node=x, func=f"{c_.name}.{f_.name}",
                                construct=f"{c_.name}.{hit} shared mutable")
     run.ob("P6", True, f"class-level mutable containers ({n_cls} classes) are never mutated through an instance that does not own a copy")
+    from .shared import value_keyed_memo
+    value_keyed_memo(run, project, "P7", what="the result for one input depends on which inputs were seen before")
     # P3: module-level generator objects in reachable modules
     for mname in sorted({r.mod.name for r in reach.values()}):
         mod = project.module(mname)
